@@ -4,9 +4,12 @@ use std::sync::Arc;
 
 use crate::driver::{Batch, Plan};
 use crate::scen::{Scenario, Tier};
+use crate::scen_fault::FailStop;
 use crate::scen_foreign::{ForeignOpen, LazyOpen, PartialOpen};
 use crate::scen_hist::History;
 use crate::scen_life::Lifecycle;
+use crate::scen_stream::{Fragmentation, SyncAsync};
+use crate::scen_write::{Canonical, StartPos, TornWrite};
 
 pub const ALL: &[&str] = &["C01", "C02", "C03", "C04", "C06", "C08", "C09", "C10", "C11", "C12", "C13", "C14", "C15", "C16", "C17", "C18", "C19", "C20"];
 
@@ -44,6 +47,24 @@ pub fn plan(prop: &str, tier: Tier) -> Option<Plan> {
         }
         "C11" => ("C11", "exploration", vec![b(PartialOpen, 1200, 100_000, t)]),
         "C20" => ("C20", "exploration", vec![b(LazyOpen, 2000, 150_000, t)]),
+        "C12" => ("C12", "exploration", vec![b(SyncAsync, 2500, 200_000, t)]),
+        "C13" => {
+            assumptions.push("schedule space is exactly the property's: transfers >= 1 byte and Pending; no errors, no Interrupted".into());
+            ("C13", "exploration", vec![b(Fragmentation, 1500, 60_000, t)])
+        }
+        "C15" => {
+            assumptions.push("verdict uses fail-stop faults only (operation k and all later ones fail); transient and writes-only faults are exploratory and reported under extra_observations".into());
+            ("C15", "fault_enumeration", vec![b(FailStop, 160, 5000, t)])
+        }
+        "C16" => {
+            assumptions.push("cross-process clause: a sample of runs is recomputed by a second pmtsim process with its own hash keys and natural iteration order".into());
+            ("C16", "exploration", vec![b(Canonical, 2500, 200_000, t)])
+        }
+        "C17" => {
+            assumptions.push("each write call is atomic (transfers are never split in this scenario), as the property states; the stream is fresh".into());
+            ("C17", "fault_enumeration", vec![b(TornWrite, 250, 15_000, t)])
+        }
+        "C18" => ("C18", "exploration", vec![b(StartPos, 1500, 100_000, t)]),
         _ => return None,
     };
     Some(Plan { prop: p, level, batches, assumptions, real: REAL.to_vec(), stubs: STUBS.to_vec() })
